@@ -19,6 +19,18 @@ VERIF = os.path.dirname(os.path.dirname(os.path.abspath(__file__)))
 EXIT_OK, EXIT_VIOLATION, EXIT_INCONCLUSIVE = 0, 1, 2
 
 
+class ConcreteViolation(Exception):
+    """Raised by Harness.concrete(): a concrete run of the REAL code through
+    the public API violated the oracle.  It is reported as a violation (it is
+    already a replayed counterexample); `key` identifies it for
+    known_findings."""
+
+    def __init__(self, key, detail=None):
+        super().__init__(key)
+        self.key = key
+        self.detail = detail
+
+
 class Harness:
     """One symbolic harness.  Subclass or instantiate with callables."""
     name = ''
@@ -136,6 +148,7 @@ def _unit(args):
         mods = [repo_module(m) for m in h.modules]
         st = core.Stats()
         seen_sat = set()
+        sat_count = {}
 
         def on_path(rec):
             ctx = rec['ctx']
@@ -178,7 +191,11 @@ def _unit(args):
                 if ob['status'] == 'unsat':
                     out['discharged'] += 1
                 elif ob['status'] == 'sat':
-                    if ob['name'] not in seen_sat:
+                    # keep a few distinct paths per obligation: a candidate
+                    # from one path may not reproduce while another does
+                    n_seen = sat_count.get(ob['name'], 0)
+                    if n_seen < 4:
+                        sat_count[ob['name']] = n_seen + 1
                         seen_sat.add(ob['name'])
                         out['sat'].append(dict(
                             name=ob['name'], key=ob.get('key'),
@@ -225,8 +242,14 @@ def _unit(args):
             with npfacade.inject(*mods, names=names):
                 out['concrete'] = int(h.concrete(cfg, rng) or 0)
         except Exception as e:
-            out['concrete_error'] = ''.join(traceback.format_exception(
-                type(e), e, e.__traceback__))[-1500:]
+            # (by name: this module may be loaded both as __main__ and as
+            # pysym.runner)
+            if type(e).__name__ == 'ConcreteViolation':
+                out['concrete_violation'] = dict(
+                    key=e.key, detail=_jsonable(e.detail))
+            else:
+                out['concrete_error'] = ''.join(traceback.format_exception(
+                    type(e), e, e.__traceback__))[-1500:]
     except BaseException as e:  # harness error -> inconclusive
         out['error'] = ''.join(
             traceback.format_exception(type(e), e, e.__traceback__))[-3000:]
@@ -311,6 +334,26 @@ def run_check(prop, tier='quick', only=None, jobs=None):
             inconclusive.append('%s cfg=%s: harness error: %s' %
                                 (h.name, r['cfg'], r['error'][-600:]))
             continue
+        cv = r.get('concrete_violation')
+        if cv:
+            key = cv['key']
+            rec = dict(harness=h.name, cfg=r['cfg'],
+                       obligation='concrete-probe', model={},
+                       replay=dict(reproduced=True, key=key,
+                                   detail=cv['detail']))
+            cex_records.append(rec)
+            if key in known_keys:
+                known_hits.setdefault(key, rec)
+            elif not any(k == key for k, _ in violations):
+                os.makedirs(replay_dir, exist_ok=True)
+                fn = os.path.join(replay_dir, '%s.json' % hashlib.sha1(
+                    key.encode()).hexdigest()[:12])
+                with open(fn, 'w') as f:
+                    json.dump(dict(property=prop, key=key, harness=h.name,
+                                   cfg=r['cfg'], obligation='concrete-probe',
+                                   model={}, replay=rec['replay']), f,
+                              indent=1)
+                violations.append((key, fn))
         if r.get('concrete_error'):
             inconclusive.append('%s cfg=%s: concrete differential run '
                                 'failed: %s' % (h.name, r['cfg'],
@@ -332,7 +375,11 @@ def run_check(prop, tier='quick', only=None, jobs=None):
             inconclusive.append(
                 '%s cfg=%s: vacuous (no satisfiable completed path)' %
                 (h.name, r['cfg']))
+        reproduced_names = set()
+        pending_inconclusive = {}
         for s in r['sat']:
+            if s['name'] in reproduced_names:
+                continue
             try:
                 rp = h.replay(r['cfg'], s['name'], model_fractions(s['model']))
             except Exception as e:
@@ -343,6 +390,8 @@ def run_check(prop, tier='quick', only=None, jobs=None):
                        replay=_jsonable(rp))
             cex_records.append(rec)
             if rp.get('reproduced'):
+                reproduced_names.add(s['name'])
+                pending_inconclusive.pop(s['name'], None)
                 key = rp.get('key') or ('%s/%s/%s' % (prop, h.name, s['name']))
                 if key in known_keys:
                     known_hits.setdefault(key, rec)
@@ -360,10 +409,11 @@ def run_check(prop, tier='quick', only=None, jobs=None):
                                        replay=_jsonable(rp)), f, indent=1)
                     violations.append((key, fn))
             else:
-                inconclusive.append(
+                pending_inconclusive[s['name']] = (
                     '%s cfg=%s: counterexample for %s did not reproduce on '
                     'the real code (%s)' % (h.name, r['cfg'], s['name'],
                                             str(rp.get('detail'))[:300]))
+        inconclusive.extend(pending_inconclusive.values())
 
     # ---- evidence --------------------------------------------------------------
     from pysym import core
